@@ -40,6 +40,20 @@ def cases(tier, seed):
                         for dtk in ('imag', 'real', 'complex'):
                             yield dict(kind='expm_gen', mattype=mt, n=n, spectrum=spec, k=k, vreal=bool(rng.integers(2)), dt=dtk,
                                        seed=int(rng.integers(1 << 31)))
+    # maps that return (a view of) their argument or a buffer of their own instead of a fresh array
+    yield from _special_cases(rng, reps)
+
+
+def _special_cases(rng, reps):
+    for form in h.MAPFORMS:
+        for n in range(1, 9):
+            for r in range(reps):
+                for vreal in (False, True):
+                    yield dict(kind='eigh', mattype='special', mapform=form, n=n, spectrum='separated', k=0, vreal=vreal, seed=int(rng.integers(1 << 31)))
+                for dtk in ('imag', 'real', 'complex'):
+                    for kind in ('expm_herm', 'expm_gen'):
+                        yield dict(kind=kind, mattype='special', mapform=form, n=n, spectrum='separated', k=0, vreal=bool(rng.integers(2)), dt=dtk,
+                                   seed=int(rng.integers(1 << 31)))
 
 
 def run_case(c):
@@ -52,13 +66,16 @@ def run_case(c):
             fails.append(dict(clause=clause, detail=detail, signature=f'{fn}:{clause}' + ('' if c['kind'] == 'eigh' else f':{c["kind"][5:]}')))
     n = c['n']
     radius = float(10.0 ** rng.uniform(-2, -0.5)) if rng.integers(5) == 0 else None
-    P = h.build(rng, n, c['mattype'], c['spectrum'], c['k'], radius=radius, vreal=c['vreal'])
+    if c.get('mapform'):
+        P = h.special(rng, n, c['mapform'], c['vreal'])
+    else:
+        P = h.build(rng, n, c['mattype'], c['spectrum'], c['k'], radius=radius, vreal=c['vreal'])
     A, v, kdim = P['A'], P['v'], P['kdim']
     nA = float(np.linalg.norm(A, 2))
     assert nA <= 10
     sc = max(1.0, nA)
     nv = float(np.linalg.norm(v))
-    Afunc = lambda x: A @ x
+    Afunc = P.get('Afunc') or (lambda x: A @ x)
     v0 = v.copy()
     ms = list(range(1, n + 1)) + [n + 1, 2 * n]
     if c['kind'] == 'eigh':
